@@ -57,14 +57,23 @@ theorem callE_callE5 (pk : Bool) (ps imp : List String) (ρ : String → Option 
   simp only [callE5, argsOk5, Bool.and_eq_true, Bool.or_eq_true, List.all_eq_true, List.contains_iff_mem]
   exact ⟨h.1, Or.inl (Or.inl h.2)⟩
 
-/-- A right-hand side: call-free, one call, or (class v3, `pk`) operators over calls of pure
-    functions. -/
-def rhs5 (pk : Bool) (ps imp : List String) (ρ : String → Option Word) (e : X.Expr) : Bool :=
-  pureE e || callE5 pk ps imp ρ e || (pk && ppE ps imp e)
+/-- Expressions with one call (`callOk` decides which calls) under monadic operators and under
+    arithmetic / relational operators whose other operand is a constant. -/
+def ipE (ρ : String → Option Word) (callOk : X.Expr → Bool) : X.Expr → Bool
+  | .un _ e => ipE ρ callOk e
+  | .bin op l r => isArith op && ((isConstL ρ l && ipE ρ callOk r) || (ipE ρ callOk l && isConstL ρ r))
+  | .call g args => callOk (.call g args)
+  | _ => false
 
-/-- A condition: call-free, or (class v3) operators over calls of pure functions. -/
-def cond5 (pk : Bool) (ps imp : List String) (e : X.Expr) : Bool :=
-  pureE e || (pk && ppE ps imp e)
+/-- A right-hand side: call-free, one call, (class v3, `pk`) operators over calls of pure
+    functions, or one call of any callee under operators whose other operands are constants. -/
+def rhs5 (pk : Bool) (ps imp : List String) (ρ : String → Option Word) (e : X.Expr) : Bool :=
+  pureE e || callE5 pk ps imp ρ e || (pk && ppE ps imp e) || ipE ρ (callE5 pk ps imp ρ) e
+
+/-- A condition: call-free, (class v3) operators over calls of pure functions, or one call of any
+    callee under operators whose other operands are constants. -/
+def cond5 (pk : Bool) (ps imp : List String) (ρ : String → Option Word) (e : X.Expr) : Bool :=
+  pureE e || (pk && ppE ps imp e) || ipE ρ (callE5 pk ps imp ρ) e
 
 /-- A name the constants `ρ` make a system-call number. -/
 def valSys (ρ : String → Option Word) (f : String) : Bool :=
@@ -78,8 +87,8 @@ mutual
 def okS5 (pk : Bool) (ps imp : List String) (ρ : String → Option Word) : X.Stmt → Bool
   | .skip | .stop => true
   | .ret e => rhs5 pk ps imp ρ e
-  | .ite c t e => cond5 pk ps imp c && okS5 pk ps imp ρ t && okS5 pk ps imp ρ e
-  | .while c b => cond5 pk ps imp c && okS5 pk ps imp ρ b
+  | .ite c t e => cond5 pk ps imp ρ c && okS5 pk ps imp ρ t && okS5 pk ps imp ρ e
+  | .while c b => cond5 pk ps imp ρ c && okS5 pk ps imp ρ b
   | .seq ss => okS5L pk ps imp ρ ss
   | .assign _ e => rhs5 pk ps imp ρ e
   | .syscall id args => decide (id < 3) && args.all pureE
@@ -97,19 +106,19 @@ theorem okS4_okS5 (pk : Bool) (ps imp : List String) (ρ : String → Option Wor
   | .ret e, h => by
     simp only [okS4, Bool.or_eq_true] at h
     simp only [okS5, rhs5, Bool.or_eq_true]
-    exact Or.inl (h.imp id (callE_callE5 pk ps imp ρ e))
+    exact Or.inl (Or.inl (h.imp id (callE_callE5 pk ps imp ρ e)))
   | .assign _ e, h => by
     simp only [okS4, Bool.or_eq_true] at h
     simp only [okS5, rhs5, Bool.or_eq_true]
-    exact Or.inl (h.imp id (callE_callE5 pk ps imp ρ e))
+    exact Or.inl (Or.inl (h.imp id (callE_callE5 pk ps imp ρ e)))
   | .ite c t e, h => by
     simp only [okS4, Bool.and_eq_true] at h
     simp only [okS5, cond5, Bool.and_eq_true, Bool.or_eq_true]
-    exact ⟨⟨Or.inl h.1.1, okS4_okS5 pk ps imp ρ t h.1.2⟩, okS4_okS5 pk ps imp ρ e h.2⟩
+    exact ⟨⟨Or.inl (Or.inl h.1.1), okS4_okS5 pk ps imp ρ t h.1.2⟩, okS4_okS5 pk ps imp ρ e h.2⟩
   | .while c b, h => by
     simp only [okS4, Bool.and_eq_true] at h
     simp only [okS5, cond5, Bool.and_eq_true, Bool.or_eq_true]
-    exact ⟨Or.inl h.1, okS4_okS5 pk ps imp ρ b h.2⟩
+    exact ⟨Or.inl (Or.inl h.1), okS4_okS5 pk ps imp ρ b h.2⟩
   | .seq ss, h => by
     simp only [okS4] at h
     simp only [okS5]
